@@ -33,6 +33,7 @@ var propConfigs = map[string]propConfig{
 	"C17": {},
 	"C09": {Gen: true},
 	"C10": {Gen: true},
+	"C12": {Gen: true},
 }
 
 var pathSuffix = regexp.MustCompile(`@path\d+$`)
@@ -198,6 +199,9 @@ func runCheck(o checkOpts) *CheckResult {
 		if e.normPkgPath(pkgPathOf(it.fn)) == "GEN" {
 			// template code is emitted identically for every struct shape: verify one copy
 			h := e.canonicalSSA(it.fn) + "|" + it.fc.Refines + it.fc.RefOf
+			if os.Getenv("GOVC_DUMP_SSA") != "" && strings.Contains(it.fn.String(), os.Getenv("GOVC_DUMP_SSA")) {
+				os.WriteFile("/tmp/ssa_"+sanitize(it.fn.String())+".txt", []byte(h), 0o644)
+			}
 			if first, dup := seenSSA[h]; dup {
 				skipped = append(skipped, fmt.Sprintf("%s: SSA identical to %s (verified there)", it.fn.String(), first))
 				continue
